@@ -944,9 +944,20 @@ if TAINT:
         if fun is None:
             return lambda f: jit(f, static_argnums, static_argnames)
 
+        if static_argnums is None:
+            snums = ()
+        elif isinstance(static_argnums, int):
+            snums = (static_argnums,)
+        else:
+            snums = tuple(static_argnums)
+        snames = () if static_argnames is None else ((static_argnames,) if isinstance(static_argnames, str) else tuple(static_argnames))
+
         @functools.wraps(fun)
         def traced(*a, **k):
-            return fun(*taint(a), **taint(k))
+            # static arguments are compile-time constants: concrete inside the traced function
+            a2 = tuple(v if (i in snums or (i - len(a)) in snums) else taint(v) for i, v in enumerate(a))
+            k2 = {n: (v if n in snames else taint(v)) for n, v in k.items()}
+            return fun(*a2, **k2)
 
         return traced
 
